@@ -228,4 +228,23 @@ PROPS = {
         title='register conversion: the register-reuse decision never clobbers a live value (proved); whole conversion equivalent and safe (bounded differential)',
         unverified=['last_use_map', 'RegisterAllocator::convert_circuit loop', 'register_circuit::Circuit::validate / eval (see C16)'],
     ),
+    'C08': dict(
+        units=[],
+        deps=[],
+        witness=['c08', '--random', '4000'],
+        witness_thorough=['c08', '--random', '400000'],
+        level='exploration',
+        technique='bounded differential stand-in (no function of the exhaustiveness checker is under contract yet): check / compile / eval on the real code vs brute-force enumeration of the scrutinee domain',
+        claim='BOUNDED, NOT A PROOF. The usefulness algorithm (usefulness / specialize / split_ctor / split_*_range) recurses over Vec<TypedPattern> stacks with '
+              'String- and HashMap-keyed definitions, sort/dedup/windows and closures; it has not been brought under Verus contracts in this round. '
+              'As the labelled stand-in, random and directed arm lists (literals, inclusive / exclusive ranges at MIN/MAX/0 and adjacent / overlapping '
+              'boundaries, wildcards, bindings, tuples, enum variants with payload, nested) over 12 scrutinee types are decided on the real checker and '
+              'compared with brute-force enumeration: the match must be accepted exactly when every value (whole domain for 8-bit and structured types, one '
+              'representative per boundary-induced region otherwise) is matched by some arm, and every accepted match is compiled and evaluated on every '
+              'representative value against the first matching arm.',
+        note='Oracle: the pattern matcher in replay/src/c08.rs (30 lines). Missing-case witnesses of rejected matches are not decoded. '
+             'Range-pattern parsing is exercised only through source text.',
+        title='match exhaustiveness and first-match semantics: bounded differential only (no contract yet)',
+        unverified=['everything: usefulness, specialize, split_ctor, split_unsigned_range, split_signed_range, match lowering in compile'],
+    ),
 }
